@@ -2,7 +2,7 @@
     Statements only; [compare_values] is the model of [Variable::compare],
     [var_eq] of [PartialEq for Variable], [float_eq] of variable.rs:70-85. *)
 From Coq Require Import Floats.SpecFloat.
-From JP Require Import Base F64 Value Proofs.CmpProof.
+From JP Require Import Base F64 Value Proofs.CmpProof Proofs.NumOkProof.
 
 (** '==' is deep structural equality: numbers by (tolerant) numeric value of
     their doubles, arrays element-wise in order, objects by keys and members,
@@ -84,6 +84,13 @@ Theorem C10_internal_order_does_not_leak : forall c a b, get_type a <> get_type 
   compare_values c a b = match c with CEq => Some false | CNe => Some true | _ => None end.
 Proof. exact internal_order_does_not_leak. Qed.
 Print Assumptions C10_internal_order_does_not_leak.
+
+(** The finiteness premises above hold for every integer of the unsigned and signed 64-bit
+    ranges (what [serde_json::Number] can hold as an integer): its double is finite. *)
+Theorem C10_64bit_integers_convert_to_finite_doubles : forall z, - 2 ^ 63 <= z < 2 ^ 64 ->
+  f_is_finite (as_f64 (PosInt z)) = true /\ f_is_finite (as_f64 (NegInt z)) = true.
+Proof. exact int64_as_f64_finite. Qed.
+Print Assumptions C10_64bit_integers_convert_to_finite_doubles.
 
 (** Non-vacuity and the documented tolerance zone: 1 == 1.0; the extremes of the
     integer range convert to finite doubles; 0.7100000000000002 == 0.71 is true
